@@ -49,7 +49,7 @@ theorem oldT_of_evolve {a b : List Tok} (h : ∀ n, Evolve n a b) : OldT a b := 
 /-- the scope invariant of a provider state -/
 structure SInv (s : St) : Prop where
   inv : Inv s
-  lt : ∀ t ∈ s.toks, t.gid < s.next ∧ ∀ b, t.basedOn = some b → b < s.next
+  lt : ∀ t ∈ s.toks, t.gid < s.next ∧ ∀ b, t.basedOn = some b → b < t.id   -- a token is younger than its base
   glt : ∀ g ∈ s.grants, g.id < s.next
   sc : ∀ t ∈ s.toks, (∃ g ∈ s.grants, g.id = t.gid) ∧ ∀ g ∈ s.grants, g.id = t.gid → Sub t.scope g.scope
   guniq : ∀ g1 ∈ s.grants, ∀ g2 ∈ s.grants, g1.id = g2.id → g1.scope = g2.scope
@@ -80,7 +80,7 @@ theorem sinv_old (s : St) (toks : List Tok) (grants : List Gr) (now : Nat) (pend
     obtain ⟨t, ht, k⟩ := ho t' ht'
     have := h.lt t ht
     simp only
-    rw [k.gid, k.basedOn]
+    rw [k.gid, k.basedOn, k.id]
     exact this
   · intro g' hg'
     obtain ⟨g, hg, hid, _⟩ := hg1 g' hg'
@@ -138,11 +138,11 @@ theorem sinv_append (s : St) (toks : List Tok) (n : Tok) (h : SInv s)
     · obtain ⟨t, ht, k⟩ := ho t' ht'
       have := h.lt t ht
       simp only
-      rw [k.gid, k.basedOn]
-      exact ⟨Nat.lt_succ_of_lt this.1, fun b hb => Nat.lt_succ_of_lt (this.2 b hb)⟩
+      rw [k.gid, k.basedOn, k.id]
+      exact ⟨Nat.lt_succ_of_lt this.1, this.2⟩
     · simp only
-      rw [hgid]
-      exact ⟨Nat.lt_succ_of_lt (h.glt g hg), fun b hb => Nat.lt_succ_of_lt (hbl b hb)⟩
+      rw [hgid, hid]
+      exact ⟨Nat.lt_succ_of_lt (h.glt g hg), hbl⟩
   · intro g' hg'; exact Nat.lt_succ_of_lt (h.glt g' hg')
   · intro t' ht'
     simp only [List.mem_append, List.mem_singleton] at ht'
@@ -321,7 +321,7 @@ theorem sinv_newGrant (s : St) (g' : Gr) (hid' : g'.id = s.next) (h : SInv s) :
   refine ⟨inv_of_idsSub (Nat.le_succ _) (IdsSub.refl _) h.inv, ?_, ?_, ?_, ?_⟩
   · intro t ht
     have := h.lt t ht
-    exact ⟨Nat.lt_succ_of_lt this.1, fun b hb => Nat.lt_succ_of_lt (this.2 b hb)⟩
+    exact ⟨Nat.lt_succ_of_lt this.1, this.2⟩
   · intro g hg
     simp only [List.mem_append, List.mem_singleton] at hg
     rcases hg with hg | rfl
